@@ -59,12 +59,15 @@ func runC08(c *engine.Ctx) {
 				starts = []string{"absent", "pending-part"}
 			}
 			for _, st := range starts {
-				for _, m := range []string{"absent", "correct", "wrong", "not-base64", "short15", "long17", "empty"} {
+				for _, m := range []string{"absent", "correct", "wrong", "not-base64", "short15", "long17", "empty", "correct+wrong-on-a-second-line"} {
 					for _, dl := range []string{"exact", "plus1", "missing", "negative", "nonnumeric"} {
 						framings := []string{"plain"}
 						if dl == "exact" {
 							// (parts are sent with the aws-chunked framing like whole objects)
 							framings = []string{"plain", "chunked", "chunked-dec+1", "chunked-dec-1"}
+						} else if dl == "plus1" {
+							// a complete aws-chunked stream in a body that ends before its Content-Length
+							framings = []string{"plain", "chunked"}
 						}
 						for _, fr := range framings {
 							for _, integ := range []bool{true, false} {
@@ -243,6 +246,13 @@ func c08Run(c *engine.Ctx, cs c08Case) (string, string, string) {
 		req.Header = append(req.Header, [2]string{"Content-MD5", ""})
 		if cs.integrity {
 			reasons = append(reasons, "InvalidDigest")
+		}
+	case "correct+wrong-on-a-second-line":
+		// two header lines are one header with a list value: not a digest (and certainly not a matching one)
+		bad := md5.Sum([]byte("other"))
+		req.Header = append(req.Header, [2]string{"Content-MD5", base64.StdEncoding.EncodeToString(sum[:])}, [2]string{"Content-MD5", base64.StdEncoding.EncodeToString(bad[:])})
+		if cs.integrity {
+			reasons = append(reasons, "InvalidDigest", "BadDigest")
 		}
 	}
 	wire := body
